@@ -50,7 +50,10 @@ def step' (w : W) (line : String) : W × String :=
       let w := apply w k [.alloc, .register]
       fin { w with conns := (toNat! id, k, (getSlot w k).gen) :: w.conns } "ok"
   | ["send", _] => fin w "ok"
-  | ["drain"] => fin w "ok"   -- the harness takes the unused operators of the free chain: no modelled slot is touched
+  | ["drain", l] =>
+    -- the harness takes every operator of the free chain; a modelled slot among them is taken like a new owner would
+    let ks := if l == "-" then [] else (l.splitOn ",").map toNat!
+    fin (ks.foldl (fun w k => apply w k [.alloc]) w) "ok"
   | ["fetch", l] =>
     let ks := if l == "-" then [] else (l.splitOn ",").map toNat!
     -- a slot seen for the first time in a batch would be a slot we never opened: refuse
